@@ -80,7 +80,8 @@ C08_THOROUGH = {"ThinA10": 1, "ThinA1": 1, "ThinA13": 12, "ThinB1": 1, "ThinB2":
 
 def c08_key(o, case):
     t = case["target"]
-    return "auth:%s:%s:%s:%s" % (case["fam"], t["kind"], o["mismatch"], case["site"])
+    crashed = ":panic" if isinstance(o.get("got"), str) and o["got"].startswith("panic:") else ""
+    return "auth:%s:%s:%s:%s%s" % (case["fam"], t["kind"], o["mismatch"], case["site"], crashed)
 
 
 def C08(ctx):
